@@ -87,6 +87,10 @@ func signLegacy(priv *PrivateKey, rand io.Reader, hash []byte) (sig []byte, err 
 	if N.Sign() == 0 {
 		return nil, errZeroParam
 	}
+	// d must be in [1, n-2]: for d = n-1 the inverse of 1+d does not exist and s is zero for every k
+	if priv.D == nil || priv.D.Sign() <= 0 || new(big.Int).Add(priv.D, one).Cmp(N) >= 0 {
+		return nil, errInvalidPrivateKey
+	}
 	var k, r, s *big.Int
 	e := hashToInt(hash, c)
 	for {
